@@ -69,7 +69,7 @@ def envs_for(rng):
     out = []
     for py in rng.sample(INTERP, 10):
         for pl in MI.PLATFORMS:
-            for ex in ([], ["a"], ["b"], ["a", "b"]):
+            for ex in ([], ["a"], ["b"], ["c"], ["a", "b"], ["b", "c"]):
                 e = dict(pl); e.update(python_full_version=py, python_version=".".join(py.split(".")[:2]), implementation_version=py, extra=ex)
                 out.append(e)
     return out
@@ -102,9 +102,12 @@ def run(tier):
         optional = [d["name"] for d in deps if d["optional"]]
         extras = {}
         if optional:
-            extras["a"] = rng.sample(optional, rng.randint(1, len(optional)))
-            rest = [n for n in optional if n not in extras["a"]]
-            if rest: extras["b"] = rest
+            # every optional dependency belongs to a non-empty subset of the extras; sharing one dependency between
+            # several extras is common in real projects (seeded change C14-1 needed exactly that)
+            names = ["a", "b", "c"][: rng.choice([1, 2, 2, 3])]
+            for n in optional:
+                for e in rng.sample(names, rng.randint(1, len(names))):
+                    extras.setdefault(e, []).append(n)
         case = dict(deps=deps, python=python, extras=extras)
         R.case(case, nontrivial=any(d["python"] or d["platform"] or d["markers"] or d["optional"] for d in deps)); R.count("projects"); R.count("dependencies", len(deps))
         try:
